@@ -695,8 +695,70 @@ func genHistory(g *hx.Gen, max int, nTx int, oversize bool, pokes bool) {
 	g.Emit("files")
 }
 
+// more block files than the open-file cache holds (maxOpenFiles = 25): every block in a file of
+// its own, then several passes over all blocks in different orders without reopening, so that
+// handles are evicted and the evicted files are read again
+func genManyFiles(g *hx.Gen) {
+	r := g.R
+	g.Emit("reset")
+	g.Emit("open %d %d", 0x0b110907, 64)
+	var known []blk
+	n := 30 + r.Intn(25)
+	for len(known) < n {
+		g.Emit("begin")
+		for k := 0; k < 1+r.Intn(4) && len(known) < n; k++ {
+			h := fmt.Sprintf("%04x%s", len(known)+1, hx.Hex(r.Bytes(1)))
+			sz := 27 + r.Intn(26) // two of these never share a 64-byte file
+			if g.Emit("sb %s %s", h, hx.Hex(r.Bytes(sz))) == "ok" {
+				known = append(known, blk{h, sz})
+			}
+		}
+		g.Emit("commit")
+	}
+	g.Emit("files")
+	for pass := 0; pass < 3; pass++ {
+		order := make([]int, len(known))
+		for i := range order {
+			order[i] = i
+		}
+		if pass == 1 {
+			for i := len(order) - 1; i > 0; i-- {
+				j := r.Intn(i + 1)
+				order[i], order[j] = order[j], order[i]
+			}
+		}
+		for _, i := range order {
+			b := known[i]
+			switch r.Intn(4) {
+			case 0:
+				g.Emit("region %s %d %d", b.hash, b.n/3, b.n-b.n/3)
+			case 1:
+				j := known[r.Intn(len(known))]
+				g.Emit("regions %s 0 %d %s 1 %d", b.hash, b.n, j.hash, j.n-1)
+			default:
+				g.Emit("fetch %s", b.hash)
+			}
+		}
+		if pass == 1 { // keep writing while many read handles are open
+			g.Emit("begin")
+			h := fmt.Sprintf("ee%02x%s", pass, hx.Hex(r.Bytes(1)))
+			if g.Emit("sb %s %s", h, hx.Hex(r.Bytes(40))) == "ok" {
+				known = append(known, blk{h, 40})
+			}
+			g.Emit("commit")
+		}
+	}
+	g.Emit("reopen")
+	for _, b := range known {
+		g.Emit("fetch %s", b.hash)
+	}
+}
+
 func gen(g *hx.Gen) {
 	r := g.R
+	for h := 0; h < g.N(3, 40); h++ {
+		genManyFiles(g)
+	}
 	for h := 0; h < g.N(70, 1500); h++ {
 		max := r.Pick(64, 64, 200, 200, 4096)
 		genHistory(g, max, 10+r.Intn(25), false, false)
